@@ -31,7 +31,7 @@ cp "evidence/$prop.json" "/verif/build/evidence-$prop.keep" 2>/dev/null
 git -C /repo apply "$out/patch.diff" || { echo "PATCH DOES NOT APPLY TO /repo"; exit 2; }
 if [ -n "$budget" ]; then python3 tools/check.py "$prop" --tier quick --budget "$budget" > "$out/check.log" 2>&1; else python3 tools/check.py "$prop" --tier quick > "$out/check.log" 2>&1; fi
 rc_check=$?
- git -C /repo checkout -- .
+ git -C /repo checkout -- . ; git -C /repo clean -fdq src
 cp "/verif/build/evidence-$prop.keep" "evidence/$prop.json" 2>/dev/null
 tail -4 "$out/check.log" | cut -c1-300
 echo "check rc=$rc_check"
